@@ -13,10 +13,10 @@ From Coercion.Validate Require Import Validate WF ValidateCheck."""
 
 # verdict codes of ValidateCheck.verdict: (text, is it a violation of the property itself?)
 CODES = {
-    1: ("workflow.Validate panicked (or the process died / hung) instead of returning an error", True),
+    1: ("workflow.Validate panicked instead of returning an error", True),
     2: ("workflow.Validate's verdict differs from the model's validate", False),
     3: ("workflow.Validate's verdict differs from the declarative WF predicate", True),
-    4: ("Workstream.Submit panicked (or the process died / hung) instead of returning an error", True),
+    4: ("Workstream.Submit panicked instead of returning an error", True),
     5: ("Submit's verdict differs from the model's submit", False),
     6: ("Submit's verdict differs from the declarative WF predicate (accepted iff well formed)", True),
     7: ("a rejected Submit changed the store (row counts differ / a plan is readable)", True),
@@ -29,13 +29,21 @@ CODES = {
     14: ("Start's verdict differs from the model's validate_start on the stored plan", False),
     15: ("Start accepted a plan whose check group uses a non-check plugin", True),
     16: ("Workstream.Start panicked", True),
+    17: ("the process died or hung while Validate / Submit / Start worked on this plan (no observation came back)", True),
 }
 
 
 def run(ctx):
     ctx.static_and_proofs("validate")
     n = 1500 if ctx.tier == "quick" else 30000
-    cases = ctx.harness("c16", ["-n", str(n)], timeout=3000)
+    args = ["-n", str(n)]
+    if ctx.replay:
+        # ./check C16 --replay replays/C16-k.json : re-run exactly that case (same seed, same index)
+        import json
+        rp = json.load(open(ctx.replay))
+        ctx.env["VERIF_SEED"] = str(rp.get("seed", ctx.seed))
+        args = ["-only", str(rp["input"]["index"])]
+    cases = ctx.harness("c16", args, timeout=3000)
     if cases is None:
         ctx.evidence(dict(evaluations=0, distinct_nontrivial=0, rule="harness did not run", samples=[]))
         return
